@@ -118,6 +118,15 @@ class BitmapHist : public Engine {
             if (f <= room) mn = f;
         }
         mx = mn + len;
+        if (r.chance(1, 12)) { // ranges touching both ends of the universe
+            static const uint32_t ends[][2] = {{0, 65535}, {0, 65534}, {1, 65535}, {0, 4097}, {61438, 65535}};
+            const uint32_t *e = ends[r.below(5)];
+            mn = e[0];
+            mx = e[1];
+        }
+        // later operations aim at the ends of this range
+        g.focus[r.below(g.focus.size())] = mx > 65535 ? 65535 : mx;
+        if (mn > 0) g.focus[r.below(g.focus.size())] = mn - 1;
         if (r.chance(1, 40)) std::swap(mn, mx); // min >= max: documented no-op
         if (r.chance(1, 60)) mx = mn;
     }
